@@ -749,9 +749,9 @@ Section Main.
     (forall l, In l ls -> link_ok n css l = true) /\
     (forall k, k < List.length ls -> cut_ok n css ls k (sides k) = true).
   Proof.
-    unfold nary_ok in OK. fold n in OK.
-    apply andb_true_iff in OK. destruct OK as [H H5]. apply andb_true_iff in H. destruct H as [H H4].
-    apply andb_true_iff in H. destruct H as [H H3]. apply andb_true_iff in H. destruct H as [H1 H2].
+    unfold nary_ok, tables_uniform, tree_ok in OK. fold n in OK.
+    apply andb_true_iff in OK. destruct OK as [HU HT]. apply andb_true_iff in HU. destruct HU as [H1 H2].
+    apply andb_true_iff in HT. destruct HT as [HT H5]. apply andb_true_iff in HT. destruct HT as [H3 H4].
     apply Nat.eqb_eq in H1. apply Nat.eqb_eq in H3. rewrite forallb_forall in H2, H4, H5.
     split; [|split; [exact H3|split; [exact H4|]]].
     - intros i. destruct (Nat.lt_ge_cases i n) as [Hi|Hi].
@@ -1082,3 +1082,127 @@ Qed.
 
 Lemma is_plan_unflipped : forall ls o, Permutation o (seq 0 (List.length ls)) -> is_plan ls (unflipped o).
 Proof. intros ls o P. unfold is_plan, unflipped. rewrite map_map. simpl. now rewrite map_id. Qed.
+
+(* ==================================================================================================== *)
+(* 12. corollaries: computed cuts and schemas; the harness's link orders; the three-table plans *)
+
+Theorem nary_premises_order_independent_l : forall ts ls,
+  nary_premises ts ls = true ->
+  forall p1 p2, is_plan ls p1 -> is_plan ls p2 -> bag_eq (run_plan ts ls p1) (run_plan ts ls p2).
+Proof. intros ts ls H. unfold nary_premises, nary_premises_s in H. eapply nary_order_independent_l; eauto. Qed.
+
+Theorem join_in_order_independent_l : forall ts ls,
+  nary_premises ts ls = true ->
+  forall o1 o2, Permutation o1 (seq 0 (List.length ls)) -> Permutation o2 (seq 0 (List.length ls)) ->
+  bag_eq (join_in_order ts ls o1) (join_in_order ts ls o2).
+Proof.
+  intros ts ls H o1 o2 P1 P2. rewrite !join_in_order_run_plan.
+  apply nary_premises_order_independent_l; auto; now apply is_plan_unflipped.
+Qed.
+
+Definition flag_of (o : RelAssocP.orient) : bool := match o with Fwd => false | Rev => true end.
+Definition plan3 (link1_first : bool) (o_in o_out : RelAssocP.orient) : plan :=
+  if link1_first then [(0, flag_of o_in); (1, flag_of o_out)] else [(1, flag_of o_in); (0, flag_of o_out)].
+
+Lemma chain_plan_run_plan : forall k1a k1b k2a k2b A B C f o1 o2,
+  chain_plan k1a k1b k2a k2b A B C f o1 o2 =
+  run_plan [A; B; C] [(JInner, 0, 1, k1a, k1b); (JInner, 1, 2, k2a, k2b)] (plan3 f o1 o2).
+Proof. intros. destruct f, o1, o2; reflexivity. Qed.
+
+Lemma plan3_is_plan : forall l1 l2 f o1 o2, is_plan [l1; l2] (plan3 f o1 o2).
+Proof. intros. unfold is_plan. destruct f; simpl; [apply Permutation_refl | apply perm_swap]. Qed.
+
+Theorem tree3_instance_l : forall css sides k1a k1b k2a k2b A B C,
+  nary_ok css sides [A; B; C] [(JInner, 0, 1, k1a, k1b); (JInner, 1, 2, k2a, k2b)] = true ->
+  forall f o1 o2 f' o1' o2',
+  bag_eq (chain_plan k1a k1b k2a k2b A B C f o1 o2) (chain_plan k1a k1b k2a k2b A B C f' o1' o2').
+Proof.
+  intros css sides k1a k1b k2a k2b A B C H f o1 o2 f' o1' o2'. rewrite !chain_plan_run_plan.
+  eapply nary_order_independent_l; eauto; apply plan3_is_plan.
+Qed.
+
+(* ==================================================================================================== *)
+(* 13. instances *)
+
+(* a four-table tree that is neither a chain nor a star:  T0 -k- T1 -j- T2,  T1 -k- T3 ; duplicate and null keys *)
+Definition x_ts : list table :=
+  [ [ [("k", VInt 1); ("a", VInt 10)]; [("k", VInt 1); ("a", VInt 11)]; [("k", VInt 2); ("a", VInt 12)]; [("k", VNull); ("a", VInt 13)] ];
+    [ [("k", VInt 1); ("j", VInt 7); ("b", VInt 20)]; [("k", VInt 2); ("j", VNull); ("b", VInt 21)]; [("k", VInt 1); ("j", VInt 8); ("b", VInt 22)] ];
+    [ [("j", VInt 7); ("c", VInt 30)]; [("j", VInt 7); ("c", VInt 31)]; [("j", VNull); ("c", VInt 32)] ];
+    [ [("k", VInt 1); ("d", VInt 40)]; [("k", VInt 3); ("d", VInt 41)]; [("k", VInt 1); ("d", VNull)] ] ]%Z.
+Definition x_ls : list link :=
+  [ (JInner, 0, 1, ["k"], ["k"]); (JInner, 1, 2, ["j"], ["j"]); (JInner, 1, 3, ["k"], ["k"]) ].
+
+Lemma nary_example_l :
+  nary_premises x_ts x_ls = true /\
+  List.length (all_plans 3) = 48 /\
+  forallb (fun p => bag_eqb (run_plan x_ts x_ls p) (all_matches x_ts x_ls)) (all_plans 3) = true /\
+  bag_eqb (run_plan x_ts x_ls [(0, false); (1, false); (2, false)])
+          (run_plan x_ts x_ls [(2, true); (1, true); (0, true)]) = true /\
+  map canon (run_plan x_ts x_ls [(2, true); (1, true); (0, true)]) =
+    [ [("a", VInt 10); ("b", VInt 20); ("c", VInt 30); ("d", VInt 40); ("j", VInt 7); ("k", VInt 1)];
+      [("a", VInt 11); ("b", VInt 20); ("c", VInt 30); ("d", VInt 40); ("j", VInt 7); ("k", VInt 1)];
+      [("a", VInt 10); ("b", VInt 20); ("c", VInt 30); ("j", VInt 7); ("k", VInt 1)];
+      [("a", VInt 11); ("b", VInt 20); ("c", VInt 30); ("j", VInt 7); ("k", VInt 1)];
+      [("a", VInt 10); ("b", VInt 20); ("c", VInt 31); ("d", VInt 40); ("j", VInt 7); ("k", VInt 1)];
+      [("a", VInt 11); ("b", VInt 20); ("c", VInt 31); ("d", VInt 40); ("j", VInt 7); ("k", VInt 1)];
+      [("a", VInt 10); ("b", VInt 20); ("c", VInt 31); ("j", VInt 7); ("k", VInt 1)];
+      [("a", VInt 11); ("b", VInt 20); ("c", VInt 31); ("j", VInt 7); ("k", VInt 1)] ]%Z.
+Proof. vm_compute. repeat split; reflexivity. Qed.
+
+(* ==================================================================================================== *)
+(* 14. uniformity is needed *)
+
+(* (a) the congruence: equal bags whose rows bind different column sets join differently *)
+Definition r_L : table := [[("k", VInt 1); ("x", VNull)]]%Z.
+Definition r_L' : table := [[("k", VInt 1)]]%Z.
+Definition r_R : table := [[("k", VInt 1); ("x", VInt 5)]]%Z.
+(* the same with equal column sets per TABLE (not per row) *)
+Definition r_M : table := [[("k", VInt 1); ("x", VNull)]; [("k", VInt 2)]]%Z.
+Definition r_M' : table := [[("k", VInt 1)]; [("k", VInt 2); ("x", VNull)]]%Z.
+
+Lemma inner_congruence_refuted_l :
+  bag_eq r_L r_L' /\ ~ bag_eq (rel_join JInner ["k"] ["k"] r_L r_R) (rel_join JInner ["k"] ["k"] r_L' r_R) /\
+  bag_eq r_M r_M' /\ (forall c, mem c (table_cols r_M) = mem c (table_cols r_M')) /\
+  ~ bag_eq (rel_join JInner ["k"] ["k"] r_M r_R) (rel_join JInner ["k"] ["k"] r_M' r_R).
+Proof.
+  split; [apply bag_eqb_spec; reflexivity|]. split; [apply bag_neq_l; reflexivity|].
+  split; [apply bag_eqb_spec; reflexivity|]. split; [|apply bag_neq_l; reflexivity].
+  intro c. unfold r_M, r_M'. simpl. destruct (String.eqb c "k"), (String.eqb c "x"); reflexivity.
+Qed.
+
+(* (b) the tree theorem: every premise but uniformity holds (no schema makes table 0 uniform), and
+       - the two orientations of a single link differ,
+       - with fixed orientations the two link ORDERS of a three-table chain differ *)
+Definition rf_ts : list table :=
+  [ [ [("k", VInt 1); ("j", VInt 1)]; [("k", VInt 1); ("j", VInt 1); ("x", VNull)] ]; [ [("j", VInt 1); ("x", VInt 5)] ] ]%Z.
+Definition rf_ls : list link := [ (JInner, 0, 1, ["j"], ["j"]) ].
+Definition rg_ts : list table :=
+  [ [ [("k", VInt 1)]; [("k", VInt 1); ("j", VNull)] ]; [ [("k", VInt 1); ("j", VInt 7)] ]; [ [("j", VInt 7); ("c", VInt 3)] ] ]%Z.
+Definition rg_ls : list link := [ (JInner, 0, 1, ["k"], ["k"]); (JInner, 1, 2, ["j"], ["j"]) ].
+
+Lemma not_uniform_two : forall (cs : list col) r1 r2 T, row_cols r1 <> row_cols r2 -> uniformb cs (r1 :: r2 :: T) = false.
+Proof.
+  intros cs r1 r2 T H. simpl. destruct (cols_eqb (row_cols r1) cs) eqn:E1; auto.
+  destruct (cols_eqb (row_cols r2) cs) eqn:E2; auto. apply cols_eqb_eq in E1. apply cols_eqb_eq in E2. congruence.
+Qed.
+
+Lemma nary_uniformity_needed_l :
+  (tree_ok (map schema_of rf_ts) (side_of 2 rf_ls) rf_ts rf_ls = true /\
+   (forall css, tables_uniform css rf_ts = false) /\
+   is_plan rf_ls [(0, false)] /\ is_plan rf_ls [(0, true)] /\
+   ~ bag_eq (run_plan rf_ts rf_ls [(0, false)]) (run_plan rf_ts rf_ls [(0, true)])) /\
+  (tree_ok (map schema_of rg_ts) (side_of 3 rg_ls) rg_ts rg_ls = true /\
+   (forall css, tables_uniform css rg_ts = false) /\
+   ~ bag_eq (join_in_order rg_ts rg_ls [0; 1]) (join_in_order rg_ts rg_ls [1; 0])).
+Proof.
+  split.
+  - split; [reflexivity|]. split.
+    + intros [|c0 [|c1 [|c2 css]]]; try reflexivity. unfold tables_uniform, rf_ts.
+      cbn [List.length Nat.eqb combine forallb fst snd andb]. rewrite not_uniform_two; [reflexivity | discriminate].
+    + split; [apply Permutation_refl|]. split; [apply Permutation_refl|]. apply bag_neq_l. reflexivity.
+  - split; [reflexivity|]. split.
+    + intros [|c0 [|c1 [|c2 [|c3 css]]]]; try reflexivity. unfold tables_uniform, rg_ts.
+      cbn [List.length Nat.eqb combine forallb fst snd andb]. rewrite not_uniform_two; [reflexivity | discriminate].
+    + apply bag_neq_l. reflexivity.
+Qed.
